@@ -199,7 +199,7 @@ fn run_dec<B: Buffer>(ops: &str) -> String {
             }
             b'N' => {
                 // Decoder::from_buf with a used buffer: take a buffer that holds junk
-                let junk: B = encode::<B>(&[0xaau8, 0xbb]).unwrap_or_default();
+                let junk: B = catch_unwind(|| encode::<B>(&[0xaau8, 0xbb]).unwrap_or_default()).unwrap_or_default();
                 d = Decoder::from_buf(junk);
                 out.push(format!("{}:N", idx));
                 idx += 1;
@@ -329,6 +329,11 @@ fn handle(line: &str) -> String {
         ["rt", cap, h] => {
             let p = unhex(h);
             with_cap!(*cap, run_rt, (cap, &p))
+        }
+        // encbx: the buffer encoder on a case too large for the model (compared with the frame specification only)
+        ["encbx", cap, h] => {
+            let p = unhex(h);
+            with_cap!(*cap, run_encb, (&p))
         }
         ["enci", k, h] => run_enci(k.parse().unwrap(), &unhex(h)),
         ["fdecode", h] => run_fdecode(&unhex(h)),
